@@ -88,6 +88,7 @@ type loopCtx struct {
 	mutated    map[*Obj]bool
 	closed     map[string]closedForm // X-symbol name -> closed form
 	refs       map[string]Layout
+	imprecise  bool   // the summary joined what an iteration-by-iteration evaluation would tell apart
 	lenOf      string // the loop runs its counter 0,1,2,… up to the length of this container
 	lenOfFirst int64  // first value of that counter
 }
@@ -99,21 +100,26 @@ type closedForm struct {
 }
 
 type frame struct {
-	fn      *ssa.Function
-	env     map[ssa.Value]AV
-	depth   int
-	loop    *loopCtx
-	blockLp map[*ssa.BasicBlock]*loopCtx
-	edge    map[[2]*ssa.BasicBlock]State
-	edgeOK  map[[2]*ssa.BasicBlock]bool
-	rets    []retRec
-	afterLp map[*ssa.BasicBlock]bool
-	isEntry bool
-	ev      *Eval
-	defers  []deferRec
-	over    map[ssa.Value]AV // block-scoped refinements of integer values (dominating comparisons)
-	cur     *ssa.BasicBlock
-	topPhis map[ssa.Value]AV
+	fn            *ssa.Function
+	env           map[ssa.Value]AV
+	depth         int
+	loop          *loopCtx
+	blockLp       map[*ssa.BasicBlock]*loopCtx
+	edge          map[[2]*ssa.BasicBlock]State
+	edgeOK        map[[2]*ssa.BasicBlock]bool
+	rets          []retRec
+	afterLp       map[*ssa.BasicBlock]bool
+	isEntry       bool
+	ev            *Eval
+	defers        []deferRec
+	over          map[ssa.Value]AV // block-scoped refinements of integer values (dominating comparisons)
+	cur           *ssa.BasicBlock
+	topPhis       map[ssa.Value]AV
+	loops         map[*ssa.BasicBlock]map[*ssa.BasicBlock]bool
+	containsInner map[*ssa.BasicBlock]bool
+	isContained   map[*ssa.BasicBlock]bool
+	unroll        int                                    // > 0 while a loop is being evaluated iteration by iteration
+	phiIn         map[[2]*ssa.BasicBlock]map[*ssa.Phi]AV // φ inputs recorded on edges that leave an unrolled loop
 }
 
 type deferRec struct {
@@ -345,6 +351,17 @@ func (e *Eval) evalFunc(fn *ssa.Function, args []AV, bindings []AV, st State, de
 			}
 		}
 	}
+	fr.loops = loops
+	fr.containsInner = map[*ssa.BasicBlock]bool{}
+	fr.isContained = map[*ssa.BasicBlock]bool{}
+	for h1, body := range loops {
+		for h2 := range loops {
+			if h2 != h1 && body[h2] {
+				fr.containsInner[h1] = true
+				fr.isContained[h2] = true
+			}
+		}
+	}
 	entry := fn.Blocks[0]
 	for _, b := range order {
 		if done[b] {
@@ -361,7 +378,10 @@ func (e *Eval) evalFunc(fn *ssa.Function, args []AV, bindings []AV, st State, de
 			}
 		}
 		if body, isHeader := loops[b]; isHeader {
-			if nested[b] || len(e.activeLoops) > 0 {
+			if !fr.isContained[b] && e.evalLoopBest(fr, b, body, in, done) {
+				continue
+			}
+			if true {
 				// (a loop in a function called from inside a loop is nested too: the iteration
 				// number the symbolic values refer to would be ambiguous)
 				if structurallyCounting(b, body) {
@@ -377,9 +397,6 @@ func (e *Eval) evalFunc(fn *ssa.Function, args []AV, bindings []AV, st State, de
 				}
 				done[b] = true
 				e.evalBlockTopPhis(fr, b, in)
-				continue
-			} else {
-				e.evalLoop(fr, b, body, in, done)
 				continue
 			}
 		}
@@ -471,7 +488,7 @@ func topContent(o *Obj, why string) Content {
 	case okArr:
 		return &ArrC{Top: why}
 	case okVec:
-		return VecC{}
+		return VecC{Top: why}
 	case okMap:
 		return MapC{Top: why}
 	case okSB:
@@ -662,13 +679,20 @@ func joinAV(a, b AV) AV {
 			return ErrV{Kind: ekUnknown, NonNil: ea.Kind != ekNil && eb.Kind != ekNil && (ea.Kind != ekFrom || ea.NonNil) && (eb.Kind != ekFrom || eb.NonNil) && ea.Kind != ekUnknown && eb.Kind != ekUnknown}
 		}
 	}
+	short := func(v AV) string {
+		s := v.String()
+		if len(s) > 60 {
+			s = s[:60] + "…"
+		}
+		return s
+	}
 	if _, ok := a.(StrV); ok {
-		return TopStr("join of " + a.String() + " | " + b.String())
+		return TopStr("join of " + short(a) + " | " + short(b))
 	}
 	if _, ok := a.(BoolV); ok {
 		return BoolV{}
 	}
-	return TopV{"join of " + a.String() + " | " + b.String()}
+	return TopV{"join of " + short(a) + " | " + short(b)}
 }
 
 // evalBlock runs the transfer functions of b and sets its outgoing edge states.
@@ -786,6 +810,9 @@ func (e *Eval) evalBlockIn(fr *frame, b *ssa.BasicBlock, st State) {
 func (e *Eval) evalInstrs(fr *frame, b *ssa.BasicBlock, instrs []ssa.Instruction, st State) {
 	for k, in := range instrs {
 		e.Instrs++
+		if e.Instrs > 3000000 {
+			panic("evaluation budget exceeded (3,000,000 abstract instructions in one context)")
+		}
 		switch x := in.(type) {
 		case *ssa.RunDefers:
 			// the deferred closures may end on several paths (`if cerr := f.Close(); err == nil
@@ -836,7 +863,7 @@ func (e *Eval) evalInstrs(fr *frame, b *ssa.BasicBlock, instrs []ssa.Instruction
 			if lp == nil {
 				lp = fr.blockLp[b]
 			}
-			e.Exits = append(e.Exits, Exit{Fn: fr.fn, Ret: x, Vals: vals, Conds: e.controlling(fr, b), InLoop: lp != nil, AfterLoop: fr.afterLp[b] || e.afterLoop(fr, b), Depth: fr.depth, State: st, Site: e.curSite()})
+			e.Exits = append(e.Exits, Exit{Fn: fr.fn, Ret: x, Vals: vals, Conds: e.controlling(fr, b), InLoop: lp != nil || fr.unroll > 0, AfterLoop: fr.afterLp[b] || e.afterLoop(fr, b), Depth: fr.depth, State: st, Site: e.curSite()})
 		case *ssa.Panic:
 			e.event("P1", Violated, x, "reachable panic(%v)", e.val(fr, x.X))
 		default:
@@ -1696,6 +1723,11 @@ func (e *Eval) evalPhi(fr *frame, x *ssa.Phi) AV {
 			continue
 		}
 		v := e.val(fr, x.Edges[i])
+		if rec, ok := fr.phiIn[[2]*ssa.BasicBlock{p, b}]; ok {
+			if pv, ok := rec[x]; ok && pv != nil {
+				v = pv // the edge leaves an unrolled loop: the value as it stood whenever it was taken
+			}
+		}
 		if cur == nil {
 			cur = v
 		} else {
@@ -2104,7 +2136,7 @@ func (e *Eval) alloc(fr *frame, x *ssa.Alloc, st State) AV {
 					elems[i] = e.zeroOf(at.Elem())
 				}
 			}
-			e.setContentFresh(st, o, VecC{elems})
+			e.setContentFresh(st, o, VecC{Elems: elems})
 			return PtrV{O: o}
 		}
 	}
@@ -2121,7 +2153,7 @@ func (e *Eval) alloc(fr *frame, x *ssa.Alloc, st State) AV {
 		for i := range elems {
 			elems[i] = e.zeroOf(stt.Field(i).Type())
 		}
-		e.setContentFresh(st, o, VecC{elems})
+		e.setContentFresh(st, o, VecC{Elems: elems})
 		return PtrV{O: o}
 	}
 	o := e.newObj(okCell, x, "local "+x.Comment)
@@ -2174,6 +2206,16 @@ func (e *Eval) makeSlice(fr *frame, x *ssa.MakeSlice, st State) AV {
 			return SliceV{O: o}
 		}
 	}
+	// any other element type, constant length: a vector with one abstract value per element
+	if c, ok := n.Const(); ok && c >= 0 && c <= 4096 {
+		o := e.newObj(okVec, x, "make("+x.Type().String()+")")
+		elems := make([]AV, c)
+		for i := range elems {
+			elems[i] = e.zeroOf(et)
+		}
+		e.setContentFresh(st, o, VecC{Elems: elems})
+		return SliceV{O: o}
+	}
 	return TopV{"make " + x.Type().String()}
 }
 
@@ -2218,6 +2260,12 @@ func (e *Eval) convert(fr *frame, x *ssa.Convert, st State) AV {
 			_, _, _, bits, _ := e.typeRange(x.Type())
 			if ok && ((uns && w <= int64(bits)) || (!uns && w < int64(bits))) {
 				return iv
+			}
+			if uns && bits > 0 {
+				// conversion to a narrower unsigned type keeps the low bits
+				if l, ok := iv.Bits.Low(int64(bits)); ok {
+					return BitsInt(l)
+				}
 			}
 			return TopInt("conversion truncates bits")
 		}
@@ -2338,6 +2386,17 @@ func (e *Eval) arith(fr *frame, x *ssa.BinOp, a, b IntV) IntV {
 		if a.Kind == ikLin && b.Kind == ikLin {
 			return LinInt(a.L.Add(b.L))
 		}
+		if a.Kind == ikBits && b.Kind == ikBits {
+			if l, ok := AddDisjoint(a.Bits, b.Bits); ok {
+				return BitsInt(l)
+			}
+		}
+		if aConst && ca == 0 && b.Kind == ikBits {
+			return b
+		}
+		if bConst && cb == 0 && a.Kind == ikBits {
+			return a
+		}
 		return rangeArith(a, b, T, func(p, q int64) (int64, bool) { return addOv(p, q) })
 	case token.SUB:
 		if a.Kind == ikLin && b.Kind == ikLin {
@@ -2345,6 +2404,13 @@ func (e *Eval) arith(fr *frame, x *ssa.BinOp, a, b IntV) IntV {
 		}
 		return rangeArith(a, IntV{Kind: ikRange, Lo: negBound(b, T, true), Hi: negBound(b, T, false)}, T, func(p, q int64) (int64, bool) { return addOv(p, q) })
 	case token.MUL:
+		for _, pr := range [][2]IntV{{a, b}, {b, a}} {
+			if c, ok := pr[1].Const(); ok && pr[0].Kind == ikBits {
+				if k, ok := log2exact(c); ok {
+					return BitsInt(pr[0].Bits.Shl(K(k)))
+				}
+			}
+		}
 		if a.Kind == ikLin && bConst {
 			if r, ok := mulOv(a.L.A, cb); ok {
 				if r2, ok := mulOv(a.L.B, cb); ok {
@@ -2396,6 +2462,17 @@ func (e *Eval) arith(fr *frame, x *ssa.BinOp, a, b IntV) IntV {
 				return CInt(ca / cb)
 			}
 			return CInt(ca % cb)
+		}
+		if a.Kind == ikBits && bConst {
+			if k, ok := log2exact(cb); ok {
+				if x.Op == token.QUO {
+					if l, ok := a.Bits.Shr(k); ok {
+						return BitsInt(l)
+					}
+				} else if l, ok := a.Bits.Low(k); ok {
+					return BitsInt(l)
+				}
+			}
 		}
 		if bConst && cb > 0 {
 			if l, h, ok := a.Bounds(T); ok && a.Kind != ikLin {
@@ -2483,10 +2560,17 @@ func (e *Eval) arith(fr *frame, x *ssa.BinOp, a, b IntV) IntV {
 			}
 			return CInt(ca ^ cb)
 		}
-		if a.Kind == ikBits && b.Kind == ikBits && x.Op == token.OR {
+		if a.Kind == ikBits && b.Kind == ikBits {
+			// disjoint supports: or, xor and + coincide
 			if l, ok := AddDisjoint(a.Bits, b.Bits); ok {
 				return BitsInt(l)
 			}
+		}
+		if aConst && ca == 0 && b.Kind == ikBits {
+			return b
+		}
+		if bConst && cb == 0 && a.Kind == ikBits {
+			return a
 		}
 		return TopInt("or/xor")
 	case token.AND_NOT:
@@ -2819,6 +2903,23 @@ func (e *Eval) loadElem(fr *frame, x ssa.Instruction, el *ElemRef, st State) AV 
 		if ac, ok := st[b.O].(*ArrC); ok && ac.Top == "" && fr.loop == nil {
 			if c, ok := el.Idx.Const(); ok && c >= 0 && c < int64(len(ac.Elems)) && ac.Elems[c] != nil {
 				return ac.Elems[c]
+			}
+		}
+		if vc, ok := st[b.O].(VecC); ok && len(vc.Elems) > 0 {
+			if c, ok := el.Idx.Const(); ok && c >= 0 && c < int64(len(vc.Elems)) && vc.Elems[c] != nil {
+				return vc.Elems[c]
+			}
+			// an index that is not a constant: the join of the elements — an iteration-by-iteration
+			// evaluation of the enclosing loop would know which one
+			if fr.loop != nil {
+				fr.loop.imprecise = true
+			}
+			var cur AV
+			for _, v := range vc.Elems {
+				cur = joinAV(cur, v)
+			}
+			if cur != nil {
+				return cur
 			}
 		}
 		if ac, ok := st[b.O].(*ArrC); ok && ac.Top == "" && len(ac.Stores) == 0 && len(ac.Elems) > 0 && el.Idx.Kind == ikLin && !el.Idx.L.Const() {
@@ -3278,7 +3379,7 @@ func (e *Eval) store(fr *frame, x *ssa.Store, st State) {
 		if vv, ok := v.(VecV); ok && p.O.Kind == okVec {
 			// a whole struct (or array) value assigned: field by field
 			if cur, ok := st[p.O].(VecC); ok && (len(cur.Elems) == len(vv.Elems) || len(cur.Elems) == 0) {
-				e.setContent(fr, st, p.O, VecC{append([]AV{}, vv.Elems...)})
+				e.setContent(fr, st, p.O, VecC{Elems: append([]AV{}, vv.Elems...)})
 				return
 			}
 		}
@@ -3296,7 +3397,7 @@ func (e *Eval) storeElem(fr *frame, x *ssa.Store, el *ElemRef, v AV, st State) {
 				if c, ok := el.Idx.Const(); ok && c >= 0 && c < int64(len(vc.Elems)) {
 					n := append([]AV{}, vc.Elems...)
 					n[c] = v
-					e.setContent(fr, st, b.O, VecC{n})
+					e.setContent(fr, st, b.O, VecC{Elems: n})
 					return
 				}
 			}
@@ -3400,7 +3501,7 @@ func (e *Eval) storeElem(fr *frame, x *ssa.Store, el *ElemRef, v AV, st State) {
 			if c, ok := el.Idx.Const(); ok && c >= 0 && c < int64(len(vc.Elems)) {
 				nn := append([]AV{}, vc.Elems...)
 				nn[c] = v
-				e.setContent(fr, st, b.O, VecC{nn})
+				e.setContent(fr, st, b.O, VecC{Elems: nn})
 				return
 			}
 		}
@@ -3411,6 +3512,33 @@ func (e *Eval) storeElem(fr *frame, x *ssa.Store, el *ElemRef, v AV, st State) {
 			nb := BytesV{LenKnown: b.LenKnown, Len: b.Len, LenSym: cur.B.LenSym, Src: "⊤: element written directly"}
 			// buf[i] = s[i] in a loop, the first and only store to buf so far, executed in every
 			// iteration: remembered; the loop summary decides whether it is a whole copy
+			// one byte at a constant position of a buffer with known content
+			if c, okc := el.Idx.Const(); okc && cur.B.LenKnown && cur.B.Len.Const() && cur.B.HasVal && !cur.B.Min && cur.B.Pending == nil && fr.loop == nil {
+				if iv, ok := v.(IntV); ok {
+					var nbits Layout
+					okb := false
+					switch {
+					case iv.Kind == ikBits:
+						if w, ok := iv.Bits.Width(); ok && w <= 8 {
+							nbits, okb = iv.Bits.Norm(), true
+						}
+					default:
+						if cv, ok := iv.Const(); ok && cv == 0 {
+							nbits, okb = Layout{}, true
+						}
+					}
+					if okb {
+						if l, ok := WriteBytes(cur.B.Val, cur.B.Len.A, c, 1, nbits); ok {
+							n2 := cur.B
+							n2.Val = l
+							n2.Src = "byte written"
+							n2.Str = nil
+							e.setContent(fr, st, b.Obj, BufC{n2})
+							return
+						}
+					}
+				}
+			}
 			if iv, ok := v.(IntV); ok && iv.SB != nil && fr.loop != nil && (cur.B.Src == "zero" || cur.B.Src == "⊤: loop head (was zero)") && cur.B.CopyOf == nil &&
 				iv.SB.Idx.Kind == ikLin && el.Idx.Kind == ikLin && iv.SB.Idx.L == el.Idx.L && everyIteration(x.Block(), fr.loop) {
 				nb.CopyOf = iv.SB
